@@ -78,7 +78,7 @@ def check_gbp_damping(ctx, gbp):
                    % ' / '.join(texts)[:60], construct='damping of the GBP sweep')
         else:
             raise AnalysisError('generalized_belief_propagation: message mixing weights `%s` are in no recognised form' % ' / '.join(texts)[:80])
-    ctx.floor('damped message updates in generalized_belief_propagation', n, 1)
+    ctx.count('damped message updates of the form a*old + b*new in generalized_belief_propagation', n)     # other spellings of the mix are not judged by this rule
 
 
 def check_project_rescaled(ctx):
